@@ -181,6 +181,23 @@ func BuildCases(r *rand.Rand, p *core.Program, cfg Config) (in *Inputs, cases []
 	for _, t := range sortedTmpls(p) {
 		vary(r, t.Body)
 	}
+	// map- and list-valued globals (reference values owned by the compiled
+	// bundle) through what takes a collection, at the end of the entry template
+	p.Glob["GM_MAP"] = core.VMap(map[string]core.V{"k": core.VStr("g")})
+	p.Glob["GL_LIST"] = core.VList(core.VInt(7), core.VInt(8))
+	gm, gl := core.EGlobal("GM_MAP"), core.EGlobal("GL_LIST")
+	lit := func(k string) core.E { return core.EMap(k, core.EInt(r.Intn(3))) }
+	globalUses := []core.Cmd{
+		core.CPrint(core.EFn("length", core.EFn("keys", core.EFn("augmentMap", lit("a"), gm)))),
+		core.CPrint(core.EFn("length", core.EFn("keys", core.EFn("augmentMap", gm, lit("b"))))),
+		core.CPrint(core.EFn("keys", gm)),
+		core.CPrint(core.EFn("length", gl)),
+		core.CForeach("foreach", "v", gl, []core.Cmd{core.CPrint(core.EVar("v"))}, core.Opt(false, nil)),
+	}
+	et := p.Bundle[p.Entry]
+	for _, k := range r.Perm(len(globalUses))[:2+r.Intn(3)] {
+		et.Body = append(et.Body, globalUses[k])
+	}
 	st := core.Style{Parens: r.Intn(2), Tight: r.Intn(3) == 0}
 	files := core.UnparseProgram(p, st)
 
@@ -200,7 +217,7 @@ func BuildCases(r *rand.Rand, p *core.Program, cfg Config) (in *Inputs, cases []
 			cases = append(cases, RenderCase{c.Entry, bad})
 		}
 	}
-	in = &Inputs{Files: files, Data: map[string]map[string]core.V{}, IJ: core.V{"t": "none"}, ExprSrc: exprPool[r.Intn(len(exprPool))]}
+	in = &Inputs{Files: files, Data: map[string]map[string]core.V{}, IJ: core.V{"t": "none"}, ExprSrc: exprPool[r.Intn(len(exprPool))], Globals: p.Glob}
 	// the map-valued and list-valued names are ONE object wherever they occur:
 	// the same nested map / list under different top-level data maps
 	in.Shared = map[string]core.V{}
